@@ -38,6 +38,14 @@ def Edge.scale (k : K) (e : Edge K) : Edge K := ⟨e.sx * k, e.sy * k, e.ex * k,
 def Edge.translate (vx vy : K) (e : Edge K) : Edge K := ⟨e.sx + vx, e.sy + vy, e.ex + vx, e.ey + vy⟩
 def Edge.rev (e : Edge K) : Edge K := ⟨e.ex, e.ey, e.sx, e.sy⟩
 
+/-- `signed_area` as the repaired code computes it (F32): the shoelace sum measured from the first point of the flattened path -/
+def signedAreaFrom (es : List (Edge K)) : K :=
+  match es with
+  | [] => 0
+  | e :: _ => signedArea (es.map (Edge.translate (-e.sx) (-e.sy)))
+def areaFrom (es : List (Edge K)) : K := |signedAreaFrom es|
+def directionFrom (es : List (Edge K)) : K := if signedAreaFrom es < 0 then -1 else 1
+
 /-- geometricshapes.Rectangle: tl → tr → br → bl → tl -/
 def rectangle (w h ox oy : K) : List (Edge K) :=
   let l := ox - w / 2; let r := ox + w / 2; let t := oy + h / 2; let b := oy - h / 2
